@@ -1407,11 +1407,18 @@ def _deserialize_node(
             deserialize_node_device_configuration(device_configuration, values=merged_values)
             for device_configuration in proto.device_configurations
         )
+    # Attributes are keyed by name and the last entry of a name wins. Entries it replaces are not
+    # deserialized: the nodes of a dropped subgraph would stay registered as users of outer values
+    last_attribute_of_name = {a.name: i for i, a in enumerate(proto.attribute)}
     node = _core.Node(
         proto.domain,
         proto.op_type,
         node_inputs,
-        [_deserialize_attribute(a, scoped_values) for a in proto.attribute],
+        [
+            _deserialize_attribute(a, scoped_values)
+            for i, a in enumerate(proto.attribute)
+            if last_attribute_of_name[a.name] == i
+        ],
         overload=getattr(proto, "overload", ""),
         outputs=node_outputs,
         name=proto.name,
